@@ -23,12 +23,17 @@
    EVERY call (FaultPersist.v): the same whole-effect statement ([C13g_persistent_fault_success_markers],
    [C13g_persistent_fault_success_whole_effect], both modes in one: [C13g_any_fault_success_whole_effect];
    non-vacuous: [C13g_persistent_swallowed_marker_removal]).
-   NOT proved in general (menu only): (F2) when the flock itself fails; (F4) for a pid that is already bound, and for
-   store_object with a stream source or supplied size / checksum.  For PERSISTENT faults (F4) is false: witness
+   (F4'), ONE-OFF faults, pid bound OR NOT, every variant of store_object / tag_object (FaultBound.v):
+   a call that raises leaves no lock and leaves the pid CONSISTENT — its reference and every cid list
+   as before the call, or no reference and in no list; never half-bound
+   ([C13g_one_off_fault_pid_consistent]; non-vacuous: [C13g_bound_pid_fault_consistent]).
+   NOT proved in general (menu only): (F2) when the flock itself fails; the "can be stored again at
+   once" retry for a pid that was already bound, and for store_object with a stream source or supplied
+   size / checksum.  For PERSISTENT faults (F4) is false: witness
    [C13g_persistent_fault_defeats_rollback], and the full statement [C13_general_statement] is
    refuted by it ([C13g_statement_false]). *)
 From HS Require Import Base PyVal FS Ops Spec Sched Refine CrashFault Integrity CrashGeneral FaultGeneral
-  FaultSuccess FaultPersist.
+  FaultSuccess FaultPersist FaultBound.
 From HS Require Bracket Indep.
 
 (* ---------- the fault semantics covered ---------- *)
@@ -467,3 +472,48 @@ Example C13g_persistent_swallowed_marker_removal :
   (run_seq w1 (api (CDelete 1)) = Some (mkWorld [] [], Val VUnit)).
 Proof. exact persistent_swallowed_marker_removal. Qed.
 Print Assumptions C13g_persistent_swallowed_marker_removal.
+
+(* ---------- (F4') ONE-OFF faults: the pid is never half-bound (FaultBound.v) ---------- *)
+
+(* store_object(pid, ...) — every source, every size / checksum argument — or tag_object(pid, cid),
+   from EVERY state satisfying the representation invariant (the pid bound or not), every one-off
+   fault position: if the call raises, no lock is left and
+   - the pid's reference and every cid list are as before the call (its earlier binding, or the
+     absence of one, is intact), or the pid has no reference and is listed in no cid list;
+   - so the pid is consistent: no reference and in no list, or a reference naming c' and listed in
+     exactly the list of c'. *)
+Theorem C13g_one_off_fault_pid_consistent :
+  forall (w0 : world) (c : call) (p : pid) (k : nat) (w : world) (e : exn),
+    Inv w0 ->
+    (match c with CStore _ _ _ _ _ _ | CTag _ _ => true | _ => false end) = true ->
+    call_pid c = Some p ->
+    run_fault (FWait k false) w0 (api c) = Some (w, Exn e) ->
+    locks w = [] /\
+    ((lookup (APidRef p) (fs w) = lookup (APidRef p) (fs w0) /\
+      forall k' : cid, lookup (ACidRef k') (fs w) = lookup (ACidRef k') (fs w0))
+     \/
+     (lookup (APidRef p) (fs w) = None /\
+      forall (k' : cid) (l : list pid), lookup (ACidRef k') (fs w) = Some (CLines l) -> ~ In p l)) /\
+    ((lookup (APidRef p) (fs w) = None /\
+      forall (k' : cid) (l : list pid), lookup (ACidRef k') (fs w) = Some (CLines l) -> ~ In p l)
+     \/
+     exists c' : cid,
+       lookup (APidRef p) (fs w) = Some (CCid c') /\
+       (exists l : list pid, lookup (ACidRef c') (fs w) = Some (CLines l) /\ In p l) /\
+       forall (k' : cid) (l : list pid),
+         lookup (ACidRef k') (fs w) = Some (CLines l) -> In p l -> k' = c').
+Proof. exact one_off_fault_pid_consistent. Qed.
+Print Assumptions C13g_one_off_fault_pid_consistent.
+
+(* non-vacuity, store {1 -> 7}: (a) tag_object(1, 8), one-off failure of the first makedirs: raises,
+   the roll-back refuses (the pid is bound to another cid), the binding is intact; (b) tag_object(1, 7)
+   with the same failure: the roll-back removes the binding, pid 1 is unbound (the FINDING above);
+   (c) store_object(1, stream, mismatching size), failure of the temp-file creation: binding intact *)
+Example C13g_bound_pid_fault_consistent :
+  let w1 := mkWorld [(AObj 7, CData 7 1 1); (APidRef 1, CCid 7); (ACidRef 7, CLines [1])] [] in
+  Inv w1 /\
+  run_fault (FWait 0 false) w1 (api (CTag 1 8)) = Some (w1, Exn EValueError) /\
+  run_fault (FWait 0 false) w1 (api (CTag 1 7)) = Some (mkWorld [(AObj 7, CData 7 1 1)] [], Exn EOSError) /\
+  run_fault (FWait 0 false) w1 (api (CStore (Some 1) SrcStream 8 1 VSzBad VCkNone)) = Some (w1, Exn EOSError).
+Proof. exact bound_pid_fault_consistent. Qed.
+Print Assumptions C13g_bound_pid_fault_consistent.
